@@ -17,7 +17,7 @@ theorem gennameL_std (env : PEnv) (md : Maildir) (flags : Option Bytes) (fuel : 
   | succ n ih =>
     intro count
     simp only [gennameL, genname, std_nameMax1, gennameBufL_fin]
-    generalize (decimalInt env.now ++ [46] ++ decimal env.pid ++ [95] ++ decimal (count + 1) ++ [46] ++ env.host ++ flags.getD []) = name
+    generalize (decimalInt env.now ++ [46] ++ decimal env.pid ++ [95] ++ decimal ((count + 1) % gennameWrap) ++ [46] ++ env.host ++ flags.getD []) = name
     by_cases h : name.length ≥ NAME_MAX1
     · simp only [h, if_true]
     · simp only [h, if_false, ih]
